@@ -9,6 +9,7 @@ import ast
 import re
 
 from .. import terms as T
+from ..core import AnalysisError
 from . import common as cm
 
 U = 'utilities.'
@@ -56,6 +57,10 @@ INBOUND_ONLY_BEFORE = {
     '_reject_connection_header': ['_reject_uppercase_header_fields'],
     '_reject_pseudo_header_fields': ['_reject_uppercase_header_fields'],
 }
+# the two authority stages of the pinned tree have the same body; a pipeline
+# may use either (their bodies are checked wherever they are used)
+TWINS = {'_check_sent_host_authority_header': '_check_host_authority_header',
+         '_check_host_authority_header': '_check_sent_host_authority_header'}
 HDR = "each(headers)"
 N0 = HDR + '[0]'
 V1 = HDR + '[1]'
@@ -113,7 +118,16 @@ def stage_order(eng, builder):
                 chained = chained and ok
                 cur = tgt
         elif isinstance(st, ast.Return):
-            returned = isinstance(st.value, ast.Name) and st.value.id == cur
+            v = st.value
+            if isinstance(v, ast.Call) and isinstance(v.func, ast.Name):
+                # the last stage's result returned without a temporary
+                ok = bool(v.args) and isinstance(v.args[0], ast.Name) and \
+                    v.args[0].id == cur
+                order.append(v.func.id)
+                chained = chained and ok
+                returned = True
+            else:
+                returned = isinstance(v, ast.Name) and v.id == cur
     rets = [n for n in ast.walk(fi.node) if isinstance(n, ast.Return)]
     chained = chained and returned and len(rets) == 1
     return fi, order, chained
@@ -122,7 +136,8 @@ def stage_order(eng, builder):
 def check_pipelines(ctx, eng, which):
     for b in which:
         fi, order, chained = stage_order(eng, b)
-        want = PIPELINES[b]
+        want = [TWINS[s] if s not in order and TWINS.get(s) in order else s
+                for s in PIPELINES[b]]
         missing = [s for s in want if s not in order]
         ctx.ob('PIPE.stages', fi.qual, 'stages present and chained',
                not missing and chained,
@@ -212,8 +227,17 @@ def check_common_validators(ctx, eng, inbound):
         ctx, eng, '_reject_connection_header',
         lambda c: has(c, '(%s in CONNECTION_HEADERS)' % N0),
         'connection-specific fields are refused')
-    # path
-    fi, paths = loop_paths(eng, U + '_check_path_header.inner')
+    # path: the generator _check_path_header hands out when it applies (a
+    # closure in the pinned tree; a module-level generator taking the
+    # headers does as well)
+    f2 = eng.m.func(U + '_check_path_header')
+    gens = []
+    skip_ok = check_skip(eng, f2, gens=gens)
+    gq = sorted(set(gens))
+    if len(gq) == 1 and eng.m.func(gq[0], required=False) is not None:
+        fi, paths = loop_paths(eng, gq[0])
+    else:
+        fi, paths = loop_paths(eng, U + '_check_path_header.inner')
     bad = []
     raised = False
     n = 0
@@ -232,14 +256,17 @@ def check_common_validators(ctx, eng, inbound):
                 bad.append('empty :path passes or header not passed on')
     ctx.ob('ORD.clause', fi.qual, 'empty :path is refused', raised and n > 0
            and not bad, '; '.join(sorted(set(bad))) or 'ok', node=fi.node)
-    f2 = eng.m.func(U + '_check_path_header')
-    skip_ok = check_skip(eng, f2)
     ctx.ob('ORD.clause', f2.qual, ':path rule applies to requests only',
            skip_ok, 'skipped for response headers and trailers, applied '
            'otherwise', node=f2.node)
     # host / authority
-    for nm in (['_check_host_authority_header'] if inbound else
-               ['_check_sent_host_authority_header']):
+    nm = '_check_host_authority_header' if inbound else \
+        '_check_sent_host_authority_header'
+    _, order, _ = stage_order(eng, 'validate_headers' if inbound else
+                              'validate_outbound_headers')
+    if nm not in order and TWINS[nm] in order:
+        nm = TWINS[nm]          # the pipeline uses the twin stage
+    for nm in [nm]:
         f3 = eng.m.func(U + nm)
         ctx.ob('ORD.clause', f3.qual, 'authority rule applies to requests '
                'only', check_skip(eng, f3, '_validate_host_authority_header'),
@@ -289,9 +316,11 @@ def check_common_validators(ctx, eng, inbound):
     check_pseudo(ctx, eng)
 
 
-def check_skip(eng, fi, inner=None):
+def check_skip(eng, fi, inner=None, gens=None):
     """if is_response_header or is_trailer: return headers (unchanged)
-    else: return <inner generator>(headers)"""
+    else: return <inner generator>(headers)
+    gens, when given, collects the qualified names of the generators
+    returned on the applying paths."""
     ok_skip = ok_apply = False
     bad = False
     # one of these stages may be written as a call of its twin
@@ -313,6 +342,8 @@ def check_skip(eng, fi, inner=None):
             ok_apply = v[0] == 'gen' and v[2][:1] in (
                 (('p', 'headers'),), ()) and (
                     inner is None or v[1].endswith(inner))
+            if gens is not None and v[0] == 'gen':
+                gens.append(v[1])
             bad = bad or not ok_apply
     return ok_skip and ok_apply and not bad
 
@@ -415,6 +446,18 @@ def check_pseudo(ctx, eng):
                         "b'CONNECT'" in c and ('!=' in c or 'not' in c)
                         for c in conds):
                     clauses['connect'] = True
+            # the required-field test written out at the use site: refusal
+            # when neither spelling of the name is in the set
+            for k, nm in (('status', ':status'), ('path', ':path'),
+                          ('method', ':method'), ('scheme', ':scheme')):
+                miss = {'not (%r in pseudo_headers)' % nm,
+                        'not (%r in pseudo_headers)' % nm.encode()}
+                if miss == set(conds[-2:]):
+                    if k == 'status' and RESP in conds:
+                        clauses[k] = True
+                    if k != 'status' and 'not ' + RESP in conds and \
+                            'not ' + TRAIL in conds:
+                        clauses[k] = True
         elif via is not None and cm.is_call_to(via, '_assert_header_in_set'):
             a = [cm.show0(x) for x in via.args]
             for k, nm in (('status', ':status'), ('path', ':path'),
@@ -431,7 +474,14 @@ def check_pseudo(ctx, eng):
            'request pseudo-headers; requests: :path, :method, :scheme, no '
            ':status, :protocol only with CONNECT (clauses found: %s)'
            % {k: v for k, v in clauses.items()}, node=f2.node)
-    f3 = eng.m.func(U + '_assert_header_in_set')
+    try:
+        f3 = eng.m.func(U + '_assert_header_in_set')
+    except AnalysisError:
+        # written out at its use sites; the clauses above have read the test
+        # there (and only count a clause when they found it)
+        ctx.note('_assert_header_in_set not present; required-field tests '
+                 'read at the use sites')
+        return
     ok = False
     for p in eng.I.run(f3):
         if cm.explicit_raise(p) is not None and \
@@ -467,37 +517,123 @@ def _is_seen_set(fi, p, term):
     return False
 
 
+def flags_builder(eng):
+    """The one function that constructs HeaderValidationFlags (a method of
+    H2Stream in the pinned tree; a module-level function taking the client
+    flag as an argument does as well)."""
+    cands = [fi for fi in eng.m.funcs.values() if any(
+        isinstance(n, ast.Call) and isinstance(n.func, ast.Name) and
+        n.func.id == 'HeaderValidationFlags' and
+        getattr(n, '_func', None) is fi for n in ast.walk(fi.node))]
+    if len(cands) == 1:
+        return cands[0]
+    return eng.m.func('stream.H2Stream._build_hdr_validation_flags',
+                      required=not cands)
+
+
+def flags_builders(eng):
+    """All functions that construct the flags (several when a new helper
+    doing it was inlined into its callers by the normaliser)."""
+    return [fi for fi in eng.m.funcs.values() if any(
+        isinstance(n, ast.Call) and isinstance(n.func, ast.Name) and
+        n.func.id == 'HeaderValidationFlags' and
+        getattr(n, '_func', None) is fi for n in ast.walk(fi.node))]
+
+
+def flags_on_path(eng, p):
+    """[(the event list the flags were derived from, the flags object)] for
+    every construction of validation flags on the path: a call of the
+    builder, or the constructor itself."""
+    out = []
+    names = {fi.name for fi in flags_builders(eng)}
+    for e in p.events:
+        if e.kind == 'new' and e.cls == 'namedtuple' and \
+                'is_trailer' in (e.get('kwargs') or {}):
+            t = e.kwargs['is_trailer']
+            if t[0] == 'isinstance' and t[1][0] == 'sub':
+                out.append((t[1][1], e.obj))
+        elif names and is_builder_call(e, names) and e.d.get('args'):
+            out.append((e.args[0], e.get('result')))
+    return out
+
+
+def is_builder_call(e, names):
+    return cm.is_call_to(e, *sorted(names))
+
+
+def _client_arg_ok(eng, fi, pname):
+    """Every call of the flags builder passes the stream machine's client
+    flag for the parameter `pname`."""
+    idx = fi.params.index(pname) - (1 if fi.params[:1] == ['self'] else 0)
+    n = 0
+    for g in eng.m.funcs.values():
+        for c in ast.walk(g.node):
+            if not (isinstance(c, ast.Call) and
+                    getattr(c, '_func', None) is g):
+                continue
+            f = c.func
+            nm = f.id if isinstance(f, ast.Name) else (
+                f.attr if isinstance(f, ast.Attribute) else None)
+            if nm != fi.name:
+                continue
+            n += 1
+            a = c.args[idx] if idx < len(c.args) else None
+            for k in c.keywords:
+                if k.arg == pname:
+                    a = k.value
+            if a is None or ast.unparse(a) != 'self.state_machine.client':
+                return False
+    return n > 0
+
+
 def check_flags(ctx, eng):
-    fi = eng.m.func('stream.H2Stream._build_hdr_validation_flags')
+    fis = flags_builders(eng)
+    if not fis:
+        fis = [eng.m.func('stream.H2Stream._build_hdr_validation_flags')]
+    for fi in fis:
+        _check_flags_in(ctx, eng, fi)
+
+
+def _check_flags_in(ctx, eng, fi):
     want = {
         'is_trailer': {'_TrailersSent', 'TrailersReceived'},
         'is_response_header': {'_ResponseSent', 'ResponseReceived',
                                'InformationalResponseReceived'},
         'is_push_promise': {'PushedStreamReceived', '_PushedRequestSent'},
     }
-    ok = False
+    ok = None
     detail = ''
     for p in cm.normal_paths(eng.I.run(fi)):
         v = p.value
         kw = None
         for e in p.events:
-            if e.kind == 'new' and e.cls == 'namedtuple':
+            if e.kind == 'new' and e.cls == 'namedtuple' and \
+                    'is_trailer' in (e.get('kwargs') or {}):
                 kw = e.kwargs
         if kw is None:
             continue
         good = True
+        # the subject is element 0 of the event list: the builder's
+        # parameter, or (built in place) what the state step returned
+        steps = [e.get('result') for _, e, _ in cm.process_inputs(p)]
         for k, classes in want.items():
             t = kw.get(k)
             if not (t and t[0] == 'isinstance' and set(t[2]) == classes and
-                    cm.show0(t[1]) == 'events[0]'):
+                    t[1][0] == 'sub' and t[1][2] == T.C(0) and
+                    (t[1][1][0] == 'p' or t[1][1] in steps)):
                 good = False
                 detail = '%s is %s' % (k, cm.show0(t) if t else None)
-        if cm.show0(kw.get('is_client', T.NONE)) != \
-                'self.state_machine.client':
+        ic = kw.get('is_client', T.NONE)
+        if cm.show0(ic) == 'self.state_machine.client':
+            pass
+        elif ic[0] == 'p' and ic[1] in fi.params and \
+                _client_arg_ok(eng, fi, ic[1]):
+            pass        # handed in by every caller
+        else:
             good = False
             detail = 'is_client'
-        ok = good
+        ok = good if ok is None else (ok and good)
     ctx.ob('FLOW.flags', fi.qual, 'validation flags from the state step',
-           ok, 'is_trailer / is_response_header / is_push_promise from the '
+           bool(ok), 'is_trailer / is_response_header / is_push_promise from the '
            'class of the event the machine returned; is_client from the '
            'machine %s' % detail, node=fi.node)
